@@ -759,6 +759,48 @@ for c in CONNECTORS:
     elif r['last'] != 1:
         chk.violation(f'udp.socks5->{c}', 'datagram-lost:after-a-fragment', f'socks5 -> {c}: the whole datagram sent after the fragments was delivered {r["last"]} times', {'connector': c})
 
+# ---- a reverse UDP listener bound to the IPv6 wildcard serves IPv4 clients too (their address then appears in its
+#      IPv4-mapped form on the session's socket): first and later datagrams of IPv4 and IPv6 clients, interleaved
+def run_dualstack():
+    q = {k: free_port() for k in ('ru', 'api')}
+    pd = Proxy({'listeners': [{'name': 'rudp', 'type': 'reverse', 'protocol': 'udp', 'bind': f"[::]:{q['ru']}", 'target': f'127.0.0.1:{origin.port}'}],
+                'connectors': [{'name': 'direct'}], 'rules': [{'target': 'direct'}], 'metrics': {'bind': f"127.0.0.1:{q['api']}", 'ui': None}}, 'c10d')
+    pd.api_port = q['api']
+    if not pd.start([q['api']]):
+        return 'no-start: ' + pd.log()[-200:]
+    try:
+        clients = []
+        for fam, dst in ((socket.AF_INET, '127.0.0.1'), (socket.AF_INET6, '::1'), (socket.AF_INET, '127.0.0.1')):
+            u = socket.socket(fam, socket.SOCK_DGRAM)
+            u.bind((dst, 0))
+            clients.append((u, (dst, q['ru']), 'ipv4' if fam == socket.AF_INET else 'ipv6'))
+        lost = []
+        for rnd in range(4):
+            for i, (u, to, fam) in enumerate(clients):
+                p_ = tagged(30, f'dual-{fam}-{i}-{rnd}')
+                u.sendto(p_, to)
+                u.settimeout(2.0)
+                try:
+                    d, _ = u.recvfrom(4000)
+                except OSError:
+                    d = None
+                if d != b'R' + p_:
+                    lost.append((fam, i, rnd, None if d is None else d[:20]))
+        for u, _, _ in clients:
+            u.close()
+        return lost
+    finally:
+        pd.stop()
+evals += 1
+r = run_dualstack()
+distinct.add(('dualstack', str(r)[:30]))
+if isinstance(r, str):
+    samples.append({'dual_stack_reverse_listener': 'skipped: ' + r})
+elif r:
+    fams = sorted({x[0] for x in r})
+    first = all(x[2] == 0 for x in r)
+    chk.violation('udp.reverse->direct', f'datagram-lost:dual-stack-listener:{"+".join(fams)}-client', f'reverse listener bound to [::]: {len(r)} of 12 datagrams were not echoed to their sender: {r[:6]}', {'lost': [list(map(str, x)) for x in r]})
+
 # ---- the relay port of a SOCKS5 UDP association belongs to the client that first uses it: a datagram that another
 #      sender gets into the port's queue at the same moment is not part of that client's session
 def run_foreign(c):
